@@ -72,6 +72,7 @@ def main():
         for p, fs in fired.items():
             for f in fs[:4]:
                 print(f"{p} {f[0]} [{f[1]}] {f[2]}: {f[3][:170]}")
+        print("FIRED:", " ".join(sorted(fired)) if fired else "-")
         if not fired:
             print("NO CHECK FIRED")
         return 0
